@@ -1,15 +1,26 @@
-# triage script (not a check): two operator-form Lindblad forms built from one SystemBathInteraction
-import numpy, quantarhei as qr
-from quantarhei.qm import LindbladForm, SystemBathInteraction, Operator
-H = qr.Hamiltonian(data=[[0.0, 0.3, 0.1],[0.3, 1.0, 0.2],[0.1, 0.2, 1.5]])
-K = Operator(data=[[0.0, 1.0, 0.0],[0.0, 0.0, 0.0],[0.0, 0.0, 0.0]])
-sbi = SystemBathInteraction([K], rates=[0.05])
-kk0 = numpy.array(sbi.KK)
-L1 = LindbladForm(H, sbi); L2 = LindbladForm(H, sbi)
-print("forms share the operator array with the system-bath interaction:", L1.Km is sbi.KK, L2.Km is sbi.KK)
-rho = qr.ReducedDensityMatrix(data=[[0.2, 0.1, 0.0],[0.1, 0.5, 0.05],[0.0, 0.05, 0.3]])
-with qr.eigenbasis_of(H):
-    a = numpy.array(L1.apply(rho).data); b = numpy.array(L2.apply(rho).data)
-    print("inside eigenbasis_of(H): |L1 rho - L2 rho| max =", numpy.max(numpy.abs(a-b)))
-    print("sbi.KK changed inside the context by", numpy.max(numpy.abs(sbi.KK - kk0)))
-print("sbi.KK after the context differs from the original by", numpy.max(numpy.abs(sbi.KK - kk0)))
+"""C07-L: propagation with an operator-form relaxation tensor and an external field returns None."""
+import numpy
+import quantarhei as qr
+
+ta = qr.TimeAxis(0.0, 100, 1.0)
+with qr.energy_units("1/cm"):
+    H = qr.Hamiltonian(data=[[0.0, 0.0], [0.0, 12000.0]])
+K = qr.qm.ProjectionOperator(0, 1, dim=2)
+sbi = qr.qm.SystemBathInteraction([K], rates=[1.0 / 100.0])
+D = qr.TransitionDipoleMoment(dim=2)   # zero dipoles: the field does nothing, the call has to work all the same
+D.data[0, 1, 0] = 1.0; D.data[1, 0, 0] = 1.0
+field = numpy.zeros(ta.length)
+rho = qr.ReducedDensityMatrix(dim=2); rho.data[1, 1] = 1.0
+res = {}
+for form in (False, True):
+    LF = qr.qm.LindbladForm(H, sbi, as_operators=form)
+    prop = qr.ReducedDensityMatrixPropagator(ta, H, RTensor=LF, Efield=field, Trdip=D)
+    try:
+        r = prop.propagate(rho)
+        res[form] = "None" if r is None else type(r).__name__
+    except Exception as e:
+        res[form] = "refused (%s)" % type(e).__name__
+    print("as_operators=%s ->" % form, res[form])
+if res[True] == "None":
+    print("DEFECT: no evolution and no refusal in operator form"); raise SystemExit(1)
+print("OK")
